@@ -93,8 +93,8 @@ def do_dump(dbpath, cfg, mode, batch):
         for r in st.desc['resources']:
             r['schema']['primaryKey'] = ['k']
     tbl = {'resource-name': 'r', 'mode': mode}
-    if mode == 'update' and not cfg['pk']:
-        tbl['update_keys'] = ['k']
+    if (mode == 'update' or cfg.get('keys_always')) and not cfg['pk']:
+        tbl['update_keys'] = ['k']          # only mode 'update' may honour them
     tables = {'t': tbl}
     if cfg.get('two'):
         tables['t2'] = dict(tbl, **{'resource-name': 'r2'})
@@ -193,6 +193,51 @@ def explore(task):
     return out
 
 
+def prebuilt_history(args):
+    """Every Flow (hence every SQLDumper) of the history is built up front, then they run in order."""
+    cfg, hist = args
+    viol = []
+    with core.scratch_dir() as d:
+        db = os.path.join(d, 'db.sqlite')
+        flows, table, label = [], None, 'config %s, dumpers built up front, history %s' % (cj(cfg), ' ; '.join('%s%s' % (m, BATCHES[b]) for m, b in hist))
+        for mode, bi in hist:
+            cols = cfg['cols']
+            fields = [('k', 'string'), ('v', 'string')] + ([('arr', 'array')] if 'arr' in cols else []) + ([('obj', 'object')] if 'obj' in cols else [])
+            st = mkstate([('r', fields, [mkrow(k, v, cols) for k, v in BATCHES[bi]])])
+            tbl = {'resource-name': 'r', 'mode': mode}
+            if mode == 'update':
+                tbl['update_keys'] = ['k']
+            flows.append(core.Flow(core.from_state(st), core.dataflows.dump_to_sql({'t': tbl}, engine='sqlite:///' + db,
+                                                                                   batch_size=cfg['batch_size'], use_bloom_filter=cfg['bloom'])))
+        for (mode, bi), flow in zip(hist, flows):
+            exp = model_apply(table, mode, [mkrow(k, v, cfg['cols']) for k, v in BATCHES[bi]], False)
+            try:
+                flow.process()
+            except Exception as e:
+                viol.append(('prebuilt-raises/%s' % mode, '%s: raises %s: %s' % (label, core.exc_sig(e), str(e)[:100]), {'cfg': cfg, 'prebuilt': hist}))
+                break
+            table = exp[0]
+            actual = db_rows(db, cfg['cols'])
+            if canon(actual) != canon(table):
+                viol.append(('prebuilt-table/%s' % mode, '%s: after %s the table holds %s, mode prescribes %s' % (label, mode, canon(actual), canon(table)),
+                             {'cfg': cfg, 'prebuilt': hist}))
+                break
+    return {'n': 1, 'key': h(['prebuilt', cfg, hist]), 'outcome': 'prebuilt-ok' if not viol else 'prebuilt-violated', 'viol': viol[:1],
+            'states': 0, 'transitions': len(hist), 'traces': 1}
+
+
+def prebuilt_cases(tier):
+    out = []
+    import itertools as it
+    ops = [(m, b) for m in MODES for b in (1, 2, 3)]
+    cfgs = [{'pk': False, 'batch_size': 1000, 'bloom': True, 'cols': []}, {'pk': False, 'batch_size': 1, 'bloom': False, 'cols': ['arr']}]
+    for cfg in cfgs:
+        for n in (2, 3) if tier == 'thorough' else (2,):
+            for hist in it.product(ops, repeat=n):
+                out.append((cfg, [list(x) for x in hist]))
+    return out
+
+
 def configs(tier):
     out = []
     for pk in (False, True):
@@ -202,6 +247,8 @@ def configs(tier):
                     out.append({'pk': pk, 'batch_size': bs, 'bloom': bloom, 'cols': cols})
     if tier == 'quick':
         out = [c for c in out if (c['cols'] != ['arr']) and not (c['batch_size'] == 2 and c['bloom'] is False)]
+    out.append({'pk': False, 'batch_size': 1000, 'bloom': True, 'cols': [], 'keys_always': True})
+    out.append({'pk': False, 'batch_size': 1, 'bloom': False, 'cols': ['arr', 'obj'], 'keys_always': True})
     # one step writing two tables with the same column names
     for pk in (False, True):
         for cols in ([], ['arr', 'obj']):
@@ -216,6 +263,8 @@ def run(run):
     tasks = tasks[k:] + tasks[:k]
     for res in run.map(explore, tasks, chunksize=1, limit=3000):
         run.absorb(res)
+    for res in run.map(prebuilt_history, prebuilt_cases(run.tier), chunksize=4, limit=600):
+        run.absorb(res)
     run.rule = ('per configuration (update keys explicit / from primaryKey x batch_size 1,2,1000 x bloom filter on/off x '
                 'scalar/+array/+object columns): BFS over dump histories up to depth %d with state merging on the table '
                 'content; from every distinct table state every (mode, batch) op is executed once; ops = 3 modes x 7 '
@@ -227,5 +276,7 @@ def run(run):
 
 
 def replay(w):
+    if 'prebuilt' in w:
+        return prebuilt_history((w['cfg'], w['prebuilt']))['viol']
     r = explore({'cfg': w['cfg'], 'depth': len(w['hist'])})
     return r['viol']
